@@ -965,6 +965,15 @@ func ConvertToObjectSchema(typeOrData any) (Object, bool) {
 	if reflect.Indirect(value).Kind() == reflect.Struct {
 		field := reflect.Indirect(value).FieldByName("ObjectSchema")
 		if field.IsValid() {
+			if field.CanAddr() {
+				// The object itself, not a copy of it: objects are told apart by their address (by the walks that must not
+				// come to the same object twice), and a copy is another object on every call.
+				if embedded, isObject := field.Addr().Interface().(*ObjectSchema); isObject {
+					return embedded, true
+				}
+				return nil, false
+			}
+			// A struct that was passed by value: there is no original to point to.
 			fieldAsInterface := field.Interface()
 			if objectType, ok := fieldAsInterface.(ObjectSchema); ok {
 				return &objectType, true
